@@ -181,6 +181,60 @@ def s_fancy(x, idx):
 
 def s_bool_ops(a, b, c):
     return (a and b) or c, a or b, not a, (a if b else c), [v for v in (a, b, c) if v]
+
+def s_invert_int(m):
+    z = numpy.zeros((m.shape[0],), dtype=numpy.int64)
+    return ~z, ~m, ~(m > 1)
+
+def s_negative_fancy(x, idx):
+    return x[idx]
+
+def s_scatter(a, idx, vals):
+    a[idx] = vals
+    return a
+
+def s_where(a):
+    w = numpy.where(a == 0)[0]
+    return w, len(w)
+
+def s_argmax_rows(x):
+    return numpy.argmax(x, 1)
+
+def s_isclose(a, b):
+    return bool(numpy.isclose(a, b)), bool(numpy.isclose(a, 0))
+
+def s_min_max(a, x):
+    return a.max(), a.min(), numpy.min(x, axis=1)
+
+def s_paired_index(x, i, j):
+    return x[i, j]
+
+def s_classmethod_like(n):
+    class K:
+        base = 3
+        @classmethod
+        def make(cls, k):
+            return cls.base + k
+    return K.make(n)
+
+def s_loop_var_after(n):
+    t = 0
+    for i in range(n):
+        t += i
+    return (t, i) if n > 0 else (t, -1)
+
+def s_dict_entry_loop(n):
+    ctx = {"n": 0, "names": {}}
+    k = 0
+    while k < n:
+        ctx["n"] += 2
+        k += 1
+    return ctx["n"]
+
+def s_copy_whole(a):
+    b = a.copy()
+    b[0] = 99
+    return a, b
 '''
 
 
@@ -318,6 +372,18 @@ def inputs():
         "s_shape_errors": [(A(1, 2, 3), A(1, 2, 3)), (A(1, 2, 3), A(7, 8))],
         "s_fancy": [(numpy.arange(8, dtype=float).reshape(4, 2), A(3, 0, 3, dt=int))],
         "s_bool_ops": [(True, False, True), (False, False, False), (True, True, False)],
+        "s_invert_int": [(A(0, 1, 5, dt=int),)],
+        "s_negative_fancy": [(numpy.arange(8, dtype=float).reshape(4, 2), A(-1, 0, -4, dt=int)), (numpy.arange(4, dtype=float).reshape(2, 2), A(2, dt=int))],
+        "s_scatter": [(A(1, 2, 3, 4), A(3, 0, dt=int), A(9, 8)), (A(1, 2, 3, 4), A(-1, 1, dt=int), A(7, 6))],
+        "s_where": [(A(0, 3, 0, 0, 2),), (A(1, 2),)],
+        "s_argmax_rows": [(numpy.array([[0., 1., 0.], [2., 2., 1.], [0., 0., 0.]]),)],
+        "s_isclose": [(1.0, 1.0 + 1e-9), (1e-9, 0.0), (1e-7, 0.0), (5.0, 6.0)],
+        "s_min_max": [(A(3, -1, 2), numpy.array([[1., 5.], [7., 2.]]))],
+        "s_paired_index": [(numpy.arange(6, dtype=float).reshape(3, 2), A(2, 0, dt=int), A(1, 1, dt=int))],
+        "s_classmethod_like": [(4,)],
+        "s_loop_var_after": [(3,), (0,), (1,)],
+        "s_dict_entry_loop": [(3,), (0,)],
+        "s_copy_whole": [(A(1, 2, 3),)],
     }
 
 
